@@ -207,18 +207,17 @@ pub(super) mod http1 {
                 Uri::from_parts(parts).expect("authority is valid")
             }
             None => {
-                unreachable!("authority_form with relative uri");
+                // A URI without an authority cannot be converted: leave it as it is.
+                return;
             }
         };
     }
 
-    fn absolute_form(uri: &mut Uri) {
-        debug_assert!(uri.scheme().is_some(), "absolute_form needs a scheme");
-        debug_assert!(
-            uri.authority().is_some(),
-            "absolute_form needs an authority"
-        );
-    }
+    /// Keep the URI as it is.
+    ///
+    /// This is used for URIs without a scheme or an authority, which are
+    /// already in origin-form (or asterisk-form), so there is nothing to do.
+    fn absolute_form(_uri: &mut Uri) {}
 
     /// Convert the URI to origin-form, if it is not already.
     ///
